@@ -19,6 +19,7 @@ import (
 	gsmsg "github.com/ipfs/go-graphsync/message"
 	gsnet "github.com/ipfs/go-graphsync/network"
 	"github.com/ipfs/go-graphsync/notifications"
+	"github.com/ipfs/go-graphsync/verifhook"
 )
 
 var log = logging.Logger("graphsync")
@@ -108,6 +109,7 @@ func (mq *MessageQueue) AllocateAndBuildMessage(size uint64, buildMessageFn func
 			return
 		}
 	}
+	verifhook.Yield("mq.beforeBuild")
 	if mq.buildMessage(size, buildMessageFn) {
 		mq.signalWork()
 	}
@@ -153,9 +155,14 @@ func (mq *MessageQueue) Shutdown() {
 }
 
 func (mq *MessageQueue) runQueue() {
+	verifhook.Event("mq.run.enter", mq)
+	verifhook.RegisterProbe(mq, mq.hasQueuedBuilders)
 	defer func() {
 		_ = mq.allocator.ReleasePeerMemory(mq.p)
 		mq.eventPublisher.Shutdown()
+		verifhook.Yield("mq.beforeOnShutdown")
+		verifhook.UnregisterProbe(mq)
+		verifhook.Event("mq.run.exit", mq)
 		mq.onShutdown(mq.p)
 	}()
 	mq.eventPublisher.Startup()
@@ -228,6 +235,9 @@ func (mq *MessageQueue) extractOutgoingMessage() (gsmsg.GraphSyncMessage, intern
 }
 
 func (mq *MessageQueue) sendMessage() {
+	verifhook.Busy(1)
+	defer verifhook.Busy(-1)
+	verifhook.Yield("mq.sendMessage")
 	message, metadata, err := mq.extractOutgoingMessage()
 
 	if err != nil {
